@@ -126,6 +126,17 @@ Proof.
 Qed.
 
 (* ---- reduce ---- *)
+Lemma chunks_concat {T : Type} (k : nat) : (0 < k)%nat -> forall fuel (xs : list T),
+  (length xs <= fuel)%nat -> concat (chunks_fuel fuel k xs) = xs.
+Proof.
+  intros Hk. induction fuel as [|fu IH]; intros xs Hl; cbn [chunks_fuel].
+  - destruct xs; [reflexivity|cbn [length] in Hl; lia].
+  - destruct xs as [|x r]; [reflexivity|].
+    cbn [concat]. rewrite IH.
+    + apply firstn_skipn.
+    + rewrite skipn_length. cbn [length] in *. lia.
+Qed.
+
 Section ReduceProofs.
   Context {T : Type}.
   Variable g : T -> T -> T.
@@ -160,17 +171,6 @@ Section ReduceProofs.
     rewrite fold_opt_total, IH. reflexivity.
   Qed.
 
-  Lemma chunks_concat (k : nat) : (0 < k)%nat -> forall fuel (xs : list T),
-    (length xs <= fuel)%nat -> concat (chunks_fuel fuel k xs) = xs.
-  Proof.
-    intros Hk. induction fuel as [|fu IH]; intros xs Hl; cbn [chunks_fuel].
-    - destruct xs; [reflexivity|cbn [length] in Hl; lia].
-    - destruct xs as [|x r]; [reflexivity|].
-      cbn [concat]. rewrite IH.
-      + apply firstn_skipn.
-      + rewrite skipn_length. cbn [length] in *. lia.
-  Qed.
-
   (* reduce_spec: for an associative function with a two-sided identity, chunking the input by any
      positive chunk size and folding the partial results gives the sequential left fold *)
   Lemma parallel_reduce_spec (k : nat) (xs : list T) :
@@ -193,6 +193,49 @@ Proof.
   - intros Hn. destruct xs as [|x r]; [reflexivity|].
     apply parallel_reduce_spec; try assumption. unfold global_chunk. cbn [length].
     apply Nat.div_str_pos. lia.
+Qed.
+
+(* a failing step surfaces: if some item makes the function fail whatever the accumulator, the chunked
+   reduce fails too (`?` in the chunk fold, try_join_all / join_all over the handles) *)
+Section ReduceFail.
+  Context {T : Type}.
+  Variable op : T -> T -> option T.
+  Variable ident : T.
+
+  Lemma fold_opt_fail x c : In x c -> (forall a, op a x = None) -> forall acc, fold_opt op acc c = None.
+  Proof.
+    induction c as [|y r IH]; intros Hin Hf acc; [destruct Hin|]. cbn [fold_opt].
+    destruct Hin as [->|Hin]; [rewrite Hf; reflexivity|].
+    destruct (op acc y); [apply IH; assumption|reflexivity].
+  Qed.
+
+  Lemma all_some_none (l : list (option T)) : In None l -> all_some l = None.
+  Proof.
+    induction l as [|[y|] r IH]; intros H; [destruct H| |reflexivity].
+    cbn [all_some]. destruct H as [H|H]; [discriminate|]. rewrite IH by assumption. reflexivity.
+  Qed.
+
+  Lemma reduce_fail_proof k xs x :
+    (0 < k)%nat -> In x xs -> (forall a, op a x = None) -> parallel_reduce_k op ident k xs = None.
+  Proof.
+    intros Hk Hin Hf. unfold parallel_reduce_k. destruct xs as [|x0 r] eqn:E; [destruct Hin|]. rewrite <- E in *.
+    assert (Hc : In x (concat (chunks k xs))).
+    { unfold chunks. rewrite (chunks_concat k Hk) by lia. exact Hin. }
+    apply in_concat in Hc. destruct Hc as [c [Hc Hx]].
+    rewrite all_some_none; [reflexivity|].
+    apply in_map_iff. exists c. split; [|exact Hc]. apply fold_opt_fail with (x := x); assumption.
+  Qed.
+End ReduceFail.
+
+Lemma reduce_error_proof : forall (T : Type) (op : T -> T -> option T) (ident : T) max_workers ncpu xs x,
+  In x xs -> (forall a, op a x = None) ->
+  parallel_reduce_k op ident (fiber_chunk max_workers (length xs)) xs = None /\
+  ((0 < ncpu)%nat -> parallel_reduce_k op ident (global_chunk ncpu (length xs)) xs = None).
+Proof.
+  intros T op ident mw ncpu xs x Hin Hf. split.
+  - apply reduce_fail_proof with (x := x); try assumption. unfold fiber_chunk. lia.
+  - intros Hn. apply reduce_fail_proof with (x := x); try assumption.
+    unfold global_chunk. destruct xs as [|y r]; [destruct Hin|]. cbn [length]. apply Nat.div_str_pos. lia.
 Qed.
 
 Example reduce_nontrivial :
